@@ -1,7 +1,7 @@
 """C13 — error listing total, coherent, pure, deterministic (DESIGN §2 C13)."""
 from hypothesis import strategies as st
 
-from ..common import crash_signature, digest, grammar, has_error, short, tree_sig
+from ..common import maybe_disturb, crash_signature, digest, grammar, has_error, short, tree_sig
 from ..engine import Outcome, Prop
 from ..gen import text as T
 
@@ -86,6 +86,7 @@ class C13(Prop):
     def check(self, case):
         code, v = case['code'], case['version']
         g = grammar(v)
+        maybe_disturb(g, code, v)      # process history: an unfinished earlier call must not matter
         try:
             m = g.parse(code)
             fail, issues = check_errors(g, m)
